@@ -459,12 +459,18 @@ def flavor_of_rr(rr):
 
 
 def load_known_findings():
-    p = os.path.join(VERIF, "known_findings.json")
-    try:
-        with open(p) as fh:
-            return json.load(fh).get("findings", [])
-    except (OSError, ValueError):
-        return []
+    res = []
+    paths = [os.path.join(VERIF, "known_findings.json")]
+    d = os.path.join(VERIF, "known_findings.d")
+    if os.path.isdir(d):
+        paths += [os.path.join(d, f) for f in sorted(os.listdir(d)) if f.endswith(".json")]
+    for p in paths:
+        try:
+            with open(p) as fh:
+                res.extend(json.load(fh).get("findings", []))
+        except (OSError, ValueError):
+            pass
+    return res
 
 
 def run_many(ctx, jobs, workers=None):
